@@ -290,16 +290,30 @@ func (i ItemCollection) Equals(with Item) bool {
 			result = false
 			return nil
 		}
+		// every member is matched with a member of the other list that no other member has been matched with
+		used := make([]bool, len(*w))
 		for _, it := range i {
 			if IsNil(it) {
 				// nil members can not be looked up
 				continue
 			}
-			if lnk := it.GetLink(); len(lnk) > 0 && w.Contains(lnk) {
-				continue
+			found := false
+			for j, wit := range *w {
+				if used[j] || IsNil(wit) {
+					continue
+				}
+				// members that carry an id are matched by it, members without one by their contents
+				if lnk := it.GetLink(); len(lnk) > 0 && len(wit.GetLink()) > 0 {
+					found = lnk.Equals(wit.GetLink(), false)
+				} else {
+					found = ItemsEqual(it, wit)
+				}
+				if found {
+					used[j] = true
+					break
+				}
 			}
-			// members without an id can only be matched by their contents
-			if !w.Contains(it) {
+			if !found {
 				result = false
 				return nil
 			}
